@@ -173,6 +173,54 @@ theorem bucketQuantile_in_bucket (almost : XR → XR → Bool) (buckets : List (
       obtain ⟨k, hS, hv⟩ := hq q h0
       exact ⟨_, k, ht q h0 h1, hS, hv⟩
 
+/-- When is the result a NUMBER?  Exactly the hypotheses that exclude the documented NaN cases (no +Inf bound,
+    fewer than two distinct bounds, no observations) and finding F-C32-2 (rank 0 in an EMPTY lowest bucket:
+    `0 < q ∨ lowest bucket non-empty`; `cOf almost cs 0` is the count of the first coalesced bucket, which the
+    fix-up never changes — `cOf_zero`).  Then for every q in [0,1] `BucketQuantile` returns a number inside the
+    bounds of the rank bucket.  Each hypothesis is needed: `bucketQuantile_nan_witness` (F-C32-2) and
+    `bucketQuantile_documented_nan_witness`. -/
+theorem bucketQuantile_number (almost : XR → XR → Bool) (buckets : List (Bucket XR))
+    (C : NonnegC buckets) (hub : ∀ b ∈ buckets, b.ub = .pinf ∨ ∃ x, b.ub = .fin x)
+    (hinf : ∃ b ∈ buckets, b.ub = .pinf) (h2 : 2 ≤ (sortCoalesce buckets).length)
+    (hobs : cOf almost (sortCoalesce buckets) ((sortCoalesce buckets).length - 1) ≠ 0)
+    (q : Rat) (h0 : 0 ≤ q) (h1 : q ≤ 1) (hpos : 0 < q ∨ 0 < cOf almost (sortCoalesce buckets) 0) :
+    ∃ r k v, bucketQuantileWith almost (.fin q) buckets = .ok r ∧
+      Sel (sortCoalesce buckets).length (cOf almost (sortCoalesce buckets))
+        (q * cOf almost (sortCoalesce buckets) ((sortCoalesce buckets).length - 1)) k ∧
+      r.quantile = .fin v ∧ loB (sortCoalesce buckets).length (uOf (sortCoalesce buckets)) k ≤ v ∧
+      v ≤ hiB (sortCoalesce buckets).length (uOf (sortCoalesce buckets)) k := by
+  obtain ⟨_, _, _, C', U⟩ := sortCoalesce_spec buckets hub C
+  obtain ⟨N, hO, hq⟩ := bqTail_main almost _ U C' h2 hobs
+  obtain ⟨k, S, e⟩ := hq q
+  have hρ : 0 ≤ q * cOf almost (sortCoalesce buckets) ((sortCoalesce buckets).length - 1) :=
+    Rat.mul_nonneg h0 (Rat.le_of_lt hO)
+  have hpos' : 0 < q * cOf almost (sortCoalesce buckets) ((sortCoalesce buckets).length - 1) ∨
+      0 < cOf almost (sortCoalesce buckets) 0 := by
+    rcases hpos with h | h
+    · exact Or.inl (Rat.mul_pos h hO)
+    · exact Or.inr h
+  obtain ⟨v, hv⟩ := valQ_fin_of N S hpos'
+  refine ⟨_, k, v, bucketQuantileWith_tail almost buckets hub hinf q h0 h1, S, by rw [e]; exact hv, ?_⟩
+  rcases valQ_bounds N hρ S with hn | ⟨v', e', b1, b2⟩
+  · rw [hv] at hn; cases hn
+  · rw [hv] at e'; cases e'; exact ⟨b1, b2⟩
+
+/-- the documented NaN cases, one per remaining hypothesis of `bucketQuantile_number`: largest bound not +Inf;
+    a single distinct bound; no observations -/
+theorem bucketQuantile_documented_nan_witness :
+    (match bucketQuantileWith noTol (.fin (1/2)) [⟨.fin 1, .fin 5⟩, ⟨.fin 2, .fin 9⟩] with
+      | .ok r => r.quantile | .error _ => .fin 0) = .nan ∧
+    (match bucketQuantileWith noTol (.fin (1/2)) [⟨.pinf, .fin 5⟩, ⟨.pinf, .fin 9⟩] with
+      | .ok r => r.quantile | .error _ => .fin 0) = .nan ∧
+    (match bucketQuantileWith noTol (.fin (1/2)) [⟨.fin 1, .fin 0⟩, ⟨.pinf, .fin 0⟩] with
+      | .ok r => r.quantile | .error _ => .fin 0) = .nan := by
+  refine ⟨?_, ?_, ?_⟩ <;> decide +kernel
+
+/-- `shuffled` (below) satisfies the hypotheses of `bucketQuantile_number` for every q in [0,1] -/
+example : (∃ b ∈ shuffled, b.ub = .pinf) ∧ 2 ≤ (sortCoalesce shuffled).length ∧
+    cOf noTol (sortCoalesce shuffled) ((sortCoalesce shuffled).length - 1) ≠ 0 ∧ 0 < cOf noTol (sortCoalesce shuffled) 0 := by
+  refine ⟨⟨⟨.pinf, .fin 9⟩, by simp [shuffled], rfl⟩, by decide +kernel, by decide +kernel, by decide +kernel⟩
+
 /-- a shuffled input with a duplicate bound and non-monotonic counts satisfies the hypotheses -/
 example : shuffled ≠ [] ∧ NonnegC shuffled ∧ (∀ b ∈ shuffled, b.ub = .pinf ∨ ∃ x, b.ub = .fin x) ∧
     (sortCoalesce shuffled).map (fun b => (b.ub, b.count)) = [(.fin 1, .fin 5), (.fin 2, .fin 7), (.pinf, .fin 9)] := by
